@@ -85,6 +85,7 @@ type HarnessResult struct {
 	errors        int
 	Uncovered     int64
 	UncoveredWhy  []string
+	Concurrent    bool
 }
 
 type Explorer struct {
@@ -264,12 +265,17 @@ func (e *Explorer) runPath(it *Interp, job Job) {
 		defer func() { recover() }()
 		it.endPath()
 	}()
-	if outcome == "budget" && it.cfg.hangIsViolation {
+	if (outcome == "budget" || outcome == "deadlock") && it.cfg.hangIsViolation {
 		it.recordViolation("hang", "terminates", detail, it.anyModel())
 	}
 	// witness for this path
 	var wit *Witness
-	if (outcome == "done" || outcome == "panic") && e.cfg.validate > 0 {
+	if p.concurrent {
+		e.mu.Lock()
+		e.res.Concurrent = true
+		e.mu.Unlock()
+	}
+	if (outcome == "done" || outcome == "panic") && e.cfg.validate > 0 && !p.concurrent {
 		if m := it.anyModel(); m != nil {
 			wit = &Witness{Harness: e.fn.Name(), Events: it.eventsWithModel(m), Outcome: outcome}
 			if outcome == "panic" {
@@ -312,6 +318,9 @@ func (e *Explorer) runPath(it *Interp, job Job) {
 		}
 	case "deadlock":
 		r.PathsDone++
+		if !it.cfg.hangIsViolation && len(r.Inconclusive) < 20 {
+			r.Inconclusive = append(r.Inconclusive, "deadlock (harness does not declare Terminates): "+detail)
+		}
 	case "error":
 		if it.tolerateUnsupported && !strings.Contains(detail, "engine crash") {
 			// the harness declared that code outside the engine's reach (reflection, templates, ...)
